@@ -212,19 +212,53 @@ write and no consumer pump holds an unregistered message (and runs its three sta
 continuation appearing) leaves every acknowledged message on disk; nothing that happens afterwards
 changes that -/
 theorem C05_partial (s : RaceSt) (hinv : RaceInv s) (hp : s.putPending = []) (hh : s.pumpHolds = [])
+    (hsc : s.scanHolds = [])
     (he : s.topicExiting = false) (hc : s.chanClosed = false) (ht : s.topicClosed = false) :
     raceRun s [.exitFlag, .exitChan, .exitTopicFlush] = some (exited s) ∧
       allAckedOnDisk (exited s) = true ∧ raceDone (exited s) = true := by
-  refine ⟨by simp [raceRun, raceStep, he, hc, ht, exited], ?_, ?_⟩
+  refine ⟨by simp [raceRun, raceStep, he, hc, ht, hsc, exited], ?_, ?_⟩
   · unfold allAckedOnDisk exited
     rw [List.all_eq_true]
     intro m hm
-    have := hinv m hm
+    have := hinv.2.1 m hm
     unfold Located at this
-    simp only [hh, List.not_mem_nil, or_false] at this
+    simp only [hh, hsc, List.not_mem_nil, or_false] at this
     simp only [Bool.or_eq_true, List.contains_eq_mem, List.mem_append, decide_eq_true_eq]
     rcases this with h1 | h1 | h1 | h1 | h1 <;> simp [h1]
-  · simp [raceDone, exited, hp, hh]
+  · simp [raceDone, exited, hp, hh, hsc]
+
+/-- shutdown racing the timeout scan is **safe** on the tree as it is: the scan holds `exitMutex.RLock`
+from before it takes a message out of the in-flight map until it has put it back (tie
+`scan_holds_exit_lock`), so in every reachable state a closed channel means no scan holds a message —
+a timed-out message is never dropped by the "exiting" path -/
+theorem scan_race_safe (sched : List RaceStep) (s : RaceSt) (h : raceRun {} sched = some s)
+    (hc : s.chanClosed = true) : s.scanHolds = [] :=
+  (raceInv_run sched {} s raceInv_init h).2.2 hc
+
+/-- … and the lock is what makes it safe: without it (`scanLock := false`, e.g. taking exitMutex only
+around the final requeue) the channel can close while the scan holds the message and it is lost -/
+def witnessScanUnlocked : List RaceStep :=
+  [.pubCheck 1, .pubSend 1, .fanout, .pumpRecv, .pumpRegister 1, .scanTake 1, .exitFlag, .exitChan, .exitTopicFlush, .scanPut 1]
+
+theorem scan_lock_needed :
+    (match raceRun { scanLock := false } witnessScanUnlocked with
+     | some s => raceDone s && !allAckedOnDisk s
+     | none => false) = true ∧
+    raceRun {} witnessScanUnlocked = none := by decide
+
+/-- a `PersistMetadata` that runs after the topics have been closed (a Notify still pending when
+`Exit` took the lock) writes the same metadata: the listing does not look at exit flags (tie
+`metadata_ignores_exit_flag`) -/
+def markExiting (s : St) : St :=
+  { s with topics := s.topics.map (fun T => { T with chans := T.chans.map (fun C => { C with exiting := true }) }) }
+
+theorem persisted_ignores_exiting (s : St) : persisted (markExiting s) = persisted s := by
+  unfold persisted markExiting
+  simp only [List.filter_map, List.map_map]
+  congr 1
+  · funext T
+    simp only [Function.comp, List.filter_map, List.map_map]
+    rfl
 
 /-- the invariant used by `C05_partial` holds in every reachable state of the race model -/
 theorem race_inv_reachable (sched : List RaceStep) (s : RaceSt) (h : raceRun {} sched = some s) : RaceInv s :=
